@@ -4,7 +4,7 @@
 From stdpp Require Import gmap.
 From DS Require Import Base RepoConstants Decimal StreamValue Aggregators Outcome OutcomeCodec ObservationCodec MercuryAgg MercuryReport
   TextForms EvmInt EvmCodecs EvmSpec PluginReports OutcomeCodecProofs EvmCodecProofs NoPanicProofs ReportsNoPanic.
-From DS Require Observe ValidateProofs MercuryWire MercuryObserve MercObserveProofs.
+From DS Require Observe ValidateProofs MercuryWire MercuryObserve MercObserveProofs BytesHistory.
 
 Example C11_gen_widths_complete : evm_type_widths = solidity_widths.
 Proof. reflexivity. Qed.
@@ -31,6 +31,13 @@ Theorem C11_outcome_no_panic : forall h cf seq prev aos, Forall (att_validated (
   is_panic (outcome_step h cf seq prev aos) = false.
 Proof. exact outcome_step_no_panic. Qed.
 Print Assumptions C11_outcome_no_panic.
+(* LLO: observations that do not decode are ignored when mixed with good ones (as long as 2f+1 decodable ones remain,
+   the outcome is the outcome of the decodable ones alone) *)
+Theorem C11_llo_undecodable_observations_ignored : forall h cf seq prev aos,
+  (2 * c_f cf + 1 <= length (List.filter BytesHistory.is_decoded aos))%nat ->
+  outcome_step h cf seq prev aos = outcome_step h cf seq prev (List.filter BytesHistory.is_decoded aos).
+Proof. exact BytesHistory.undecodable_observations_ignored. Qed.
+Print Assumptions C11_llo_undecodable_observations_ignored.
 (* the assumption is needed: exactly the dereference that validation guards *)
 Theorem C11_outcome_needs_validation_refuted : forall h, exists cf aos, is_panic (outcome_step h cf 2 (initial_outcome cf) aos) = true.
 Proof. exact outcome_panics_without_validation_refuted. Qed.
